@@ -161,13 +161,77 @@ def sites_of(body):
 # --------------------------------------------------------------------------------------------
 # intervals over expression trees
 
+FACTS = None   # set by r3.run: gives ty_range access to enum discriminants and callee bodies
+
+
 def ty_range(ty):
     if ty is None:
         return None
     ty = ty.strip()
     if ty.startswith("&"):
         ty = ty.lstrip("&").replace("mut ", "").strip()
-    return INT_RANGES.get(ty)
+    r = INT_RANGES.get(ty)
+    if r is None and FACTS is not None:
+        adt = FACTS.adts.get(ty)
+        if adt and adt["kind"] == "Enum" and adt["variants"] and all(not v["fields"] for v in adt["variants"]):
+            ds = [v["discr"] for v in adt["variants"]]
+            return (min(ds), max(ds))
+    return r
+
+
+_ret_cache = {}
+
+
+def ret_interval(path, depth=0):
+    """Interval of the value returned by a local function, for any arguments (context-insensitive)."""
+    if FACTS is None or path not in FACTS.bodies or depth > 4:
+        return None
+    if path in _ret_cache:
+        return _ret_cache[path]
+    _ret_cache[path] = None   # recursion guard
+    b = FACTS.bodies[path]
+    if b.light:
+        return None
+    ds = b.defs().get(0, [])
+    if not ds or b.defs().get(("partial", 0)):
+        return None
+    lo, hi = None, None
+    for (bi, si, rv) in ds:
+        if si == "term":
+            e = b.expr_of_call(rv, 10, b.local_ty(0))
+        else:
+            e = b.expr_of_rvalue(rv, 10)
+        iv = interval(e, None, depth * 10 + 1)
+        if iv is None:
+            return None
+        lo = iv[0] if lo is None else min(lo, iv[0])
+        hi = iv[1] if hi is None else max(hi, iv[1])
+    _ret_cache[path] = (lo, hi)
+    return (lo, hi)
+
+
+def _strip_refs(e):
+    while isinstance(e, tuple) and e and e[0] in ("ref", "deref", "var", "cast"):
+        e = e[2] if e[0] in ("var", "cast") else e[1]
+    return e
+
+
+def upper_len(e):
+    """(S, k) such that e <= len(S) + k, or None."""
+    if not isinstance(e, tuple):
+        return None
+    if e[0] == "var":
+        return upper_len(e[2])
+    if e[0] == "call" and e[1]:
+        c = strip_generics(e[1])
+        if (c.endswith("::partition_point") or c.endswith("<impl [T]>::len") or c.endswith("::Vec::len")) and e[2]:
+            return (_strip_refs(e[2][0]), 0)
+    if e[0] == "field" and e[2] == "0" and e[1][0] == "bin" and e[1][1] == "SubWithOverflow":
+        u = upper_len(e[1][2])
+        c = interval(e[1][3])
+        if u and c and c[0] == c[1]:
+            return (u[0], u[1] - c[0])
+    return None
 
 
 def contains_unstable(e):
@@ -218,6 +282,8 @@ def _interval(e, env, depth):
     if k == "cast":
         tr = ty_range(e[1])
         xi = interval(e[2], env, d)
+        if xi is None and e[3]:
+            xi = ty_range(e[3])
         if tr is None:
             return None
         if xi is not None and xi[0] >= tr[0] and xi[1] <= tr[1]:
@@ -252,13 +318,43 @@ def _interval(e, env, depth):
                 x = a or b
                 tr = ty_range(dty)
                 return ((tr or (-2**200, 0))[0], x[1])
-        if re.search(r"::(reg_no)$", callee):
-            return (0, 7)
+        if FACTS is not None and e[1] in FACTS.bodies:
+            r = ret_interval(e[1], depth // 10)
+            if r is not None:
+                return r
         return ty_range(dty)
+    if k == "discr":
+        t = expr_ty(e[1])
+        if t and FACTS is not None:
+            adt = FACTS.adts.get(t.split("<")[0])
+            if adt and adt["kind"] == "Enum":
+                ds = [v["discr"] for v in adt["variants"]]
+                return (min(ds), max(ds))
+        return None
     if k == "deref":
         return interval(e[1], env, d) if e[1][0] in ("ref", "arg", "var", "local", "field") and e[1][0] != "arg" else (ty_range(e[1][3]) if e[1][0] in ("arg", "local") else None)
     if k == "ref":
         return interval(e[1], env, d)
+    return None
+
+
+def expr_ty(e):
+    """static type string of an expression tree where it is recorded"""
+    if not isinstance(e, tuple):
+        return None
+    if e[0] in ("arg", "local", "field"):
+        return e[3]
+    if e[0] == "var":
+        return expr_ty(e[2])
+    if e[0] == "deref":
+        t = expr_ty(e[1])
+        if t and t.startswith("&"):
+            return t.lstrip("&").replace("mut ", "", 1).strip()
+        return None
+    if e[0] == "call" and len(e) > 4:
+        return e[4]
+    if e[0] == "cast":
+        return e[1]
     return None
 
 
@@ -477,7 +573,7 @@ def auto_discharge(site):
     """-> (tag, reason) or None.  Only arguments that hold for every input are accepted."""
     b = site.body
     if site.kind != "assert":
-        return None
+        return _auto_call(site)
     env = refine_env(b, site.block)
     tag = "D-GUARD" if env else "D-TYPE"
     ops = [b.expr_of_operand(o) for o in site.ops]
@@ -513,11 +609,76 @@ def auto_discharge(site):
         ii = interval(ops[1], env)
         if il is not None and ii is not None and ii[0] >= 0 and ii[1] < il[0]:
             return (tag, "index in [%d,%d] < length >= %d" % (ii[0], ii[1], il[0]))
+        u = upper_len(ops[1])
+        lo = _unwrap_var(ops[0])
+        if u and u[1] <= -1 and lo[0] == "un" and lo[1] == "PtrMetadata" and _strip_refs(lo[2]) == u[0] and ii is not None and ii[0] >= 0:
+            return ("D-GUARD", "index <= len(slice) %+d of the same slice (partition_point/len result), and the subtraction is guarded" % u[1])
         return None
     if kind in ("DivisionByZero", "RemainderByZero"):
         iv = interval(ops[0], env)
         if iv is not None and (iv[0] > 0 or iv[1] < 0):
             return (tag, "divisor in [%d,%d] excludes 0" % iv)
+        return None
+    return None
+
+
+def _agg_name(e):
+    e = _unwrap_var(e)
+    while isinstance(e, tuple) and e and e[0] in ("ref", "deref"):
+        e = _unwrap_var(e[1])
+    if isinstance(e, tuple) and e and e[0] == "agg":
+        return e[2][0], e[3]
+    return None, None
+
+
+def _auto_call(site):
+    """Argument-shape rules for std callees whose panic condition is a documented function of
+    the arguments."""
+    b = site.body
+    w = site.what
+    ops = [b.expr_of_operand(o) for o in site.ops]
+    env = refine_env(b, site.block)
+    name = w.split("::")[-1]
+    if name == "clamp" and len(ops) == 3:
+        lo, hi = interval(ops[1], env), interval(ops[2], env)
+        if lo and hi and lo[1] <= hi[0]:
+            return ("D-TYPE", "clamp bounds [%d..%d] are ordered" % (lo[1], hi[0]))
+        return None
+    if name in ("range", "range_mut") and "BTree" in w and len(ops) == 2:
+        an, _ = _agg_name(ops[1])
+        if an in ("std::ops::RangeToInclusive", "std::ops::RangeFrom", "std::ops::RangeTo", "std::ops::RangeFull"):
+            return ("D-TYPE", "one-sided %s cannot have start > end" % an.split("::")[-1])
+        return None
+    if name in ("windows", "chunks", "chunks_exact", "chunks_mut", "chunks_exact_mut", "rchunks") and len(ops) == 2:
+        n = interval(ops[1], env)
+        if n and n[0] >= 1:
+            return ("D-TYPE", "%s size >= %d" % (name, n[0]))
+        return None
+    if name == "from_str_radix" and len(ops) == 2:
+        n = interval(ops[1], env)
+        if n and 2 <= n[0] and n[1] <= 36:
+            return ("D-TYPE", "radix in [%d,%d]" % n)
+        return None
+    if name in ("index", "index_mut") and len(ops) == 2:
+        an, _ = _agg_name(ops[1])
+        if an == "std::ops::RangeFull":
+            return ("D-TYPE", "full range index")
+        return None
+    m = re.match(r"^<&?(\w+) as std::ops::(Add|Sub|Mul)(<.*>)?>::\w+$", w)
+    if m and len(ops) == 2:
+        tr = ty_range(m.group(1))
+        ia, ib = interval(ops[0], env), interval(ops[1], env)
+        if tr and ia and ib:
+            op = m.group(2)
+            if op == "Add":
+                lo, hi = ia[0] + ib[0], ia[1] + ib[1]
+            elif op == "Sub":
+                lo, hi = ia[0] - ib[1], ia[1] - ib[0]
+            else:
+                ps = [ia[0] * ib[0], ia[0] * ib[1], ia[1] * ib[0], ia[1] * ib[1]]
+                lo, hi = min(ps), max(ps)
+            if lo >= tr[0] and hi <= tr[1]:
+                return ("D-GUARD" if env else "D-TYPE", "%s stays within %s" % (op, m.group(1)))
         return None
     return None
 
